@@ -19,7 +19,6 @@ import SparseV.Generated.Npz
 namespace SparseV.Npz
 open SparseV
 
-deriving instance DecidableEq for Except
 
 /-! ## payloads, member maps, arrays -/
 
